@@ -1,4 +1,5 @@
 import PelProofs.Trace
+import PelProofs.Loaders
 import PelGen.Live
 /-
   C15 — Trace buffers decode entry by entry, stopping at the first malformed entry.
@@ -84,5 +85,79 @@ theorem entry_dump_lossless (e : TraceEntry) (he : e.WF) :
   obtain ⟨_, _, _, _, _, hl, hm, hb⟩ := he
   have h16 : (16:Nat) ^ 8 = 2 ^ 32 := by decide
   exact parseDump_hexdumpFrom e.data.length e.data 0 (Nat.le_refl _) hb (by intro; omega)
+
+/-! ### the string-file LOADER (`TraceStringFile.__init__` / `_add_trace_string`, modelled in PelModel/Regex.lean + Loaders.lean) -/
+
+/-- ★ Printing trace strings as a string file (`hash||format||location` + newline, hash in decimal) and loading the file with
+    the model of the repo's loader gives what the constructor stores: the hash, and format and location with blanks stripped.
+
+    Well-formedness `traceStringWf` (decidable): format and location without newline; the hash has at most 4300 digits; and
+    `|` + location contains no `||` (i.e. the location has no `||` and does not begin with `|`).  The last condition is exact for
+    the split: `(.*)\|\|(.*)` is greedy, so the line is cut at its LAST `||` (see `split_at_last_bars`); the format itself may
+    contain `||`, may end with `|`, and may be empty. -/
+theorem string_file_roundtrip (ss : List TraceString) (hwf : ∀ t ∈ ss, traceStringWf t = true) :
+    loadTraceStrings (renderStringFile ss) = some (ss.map normaliseTraceString) := by
+  have := loadTraceStrings_rendered ss hwf []
+  rw [List.append_nil] at this
+  unfold renderStringFile
+  rw [this]
+  simp [loadTraceStrings]
+
+def demoStrings : List TraceString :=
+  [{ hash := 92602121, fmt := s "I> ADT7470: trace_level = %u", location := s "adt7470_fan_ctl.cpp(926)" },
+   { hash := 0, fmt := s " a || b \\\"q\" | ", location := s " x|y " },
+   { hash := 7, fmt := [], location := [] }]
+
+example : (∀ t ∈ demoStrings, traceStringWf t = true) ∧
+    renderStringFile demoStrings =
+      [s "92602121||I> ADT7470: trace_level = %u||adt7470_fan_ctl.cpp(926)\n", s "0|| a || b \\\"q\" | || x|y \n", s "7||||\n"] ∧
+    loadTraceStrings (renderStringFile demoStrings) = some
+      [{ hash := 92602121, fmt := s "I> ADT7470: trace_level = %u", location := s "adt7470_fan_ctl.cpp(926)" },
+       { hash := 0, fmt := s "a || b \\\"q\" |", location := s "x|y" },
+       { hash := 7, fmt := [], location := [] }] := by decide +kernel
+
+/-- the greedy `(.*)` cuts at the LAST `||`: a location containing `||`, or beginning with `|`, is not read back -/
+theorem split_at_last_bars :
+    loadTraceStrings [s "1||a||b||c\n"] = some [{ hash := 1, fmt := s "a||b", location := s "c" }] ∧
+    loadTraceStrings [s "2||a|||b\n"] = some [{ hash := 2, fmt := s "a|", location := s "b" }] ∧
+    traceStringWf { hash := 1, fmt := s "a", location := s "b||c" } = false ∧
+    traceStringWf { hash := 2, fmt := s "a", location := s "|b" } = false := by decide +kernel
+
+/-- ★ the groups of a string-file line in any layout: blanks around the hash, an optional final newline -/
+theorem string_line_groups (w0 w1 : Text) (h0 : AllSp w0) (h1 : AllSp w1) (d : Nat) (ds fmt loc nl : Text)
+    (hd : 48 ≤ d ∧ d ≤ 57) (hds : ∀ x ∈ ds, 48 ≤ x ∧ x ≤ 57) (hfmt : ∀ x ∈ fmt, x ≠ 10) (hloc : ∀ x ∈ loc, x ≠ 10)
+    (hbar : noBarBar (124 :: loc) = true) (hnl : nl = [10] ∨ nl = []) :
+    traceLineRe.fullmatch (w0 ++ (d :: (ds ++ (w1 ++ (124 :: 124 :: (fmt ++ (124 :: 124 :: (loc ++ nl))))))))
+      = some [(3, loc), (2, fmt), (1, d :: ds)] :=
+  traceLine_fullmatch w0 w1 h0 h1 d ds fmt loc nl hd hds hfmt hloc hbar hnl
+
+/-- blanks around the hash (a form feed and a no-break space among them), no final newline -/
+example : AllSp [32, 12] ∧ AllSp [160] ∧ noBarBar (124 :: s "b|c") = true ∧
+    traceLineRe.fullmatch ([32, 12] ++ (49 :: (s "7" ++ ([160] ++ (124 :: 124 :: (s "a||" ++ (124 :: 124 :: (s "b|c" ++ []))))))))
+      = some [(3, s "b|c"), (2, s "a||"), (1, s "17")] := by
+  refine ⟨?_, ?_, by decide, by decide +kernel⟩
+  · intro x hx; simp only [List.mem_cons, List.not_mem_nil, or_false] at hx; rcases hx with h | h <;> subst h <;> decide
+  · intro x hx; simp only [List.mem_singleton] at hx; subst hx; decide
+
+/-- ★ a line that does not match `LINE_RE` (the `#FSP_TRACE_v2|||…` heading of the shipped files, a blank hash, a line with a
+    single `||`) contributes nothing and does not disturb its neighbours -/
+theorem non_matching_lines_skipped (a b : List Text) (bad : Text) (h : traceLineRe.fullmatch bad = none) :
+    loadTraceStrings (a ++ bad :: b) = loadTraceStrings (a ++ b) :=
+  loadTraceStrings_bad_line bad h a b
+
+example : ∀ bad ∈ [s "#FSP_TRACE_v2|||Thu Sep 24 12:55:43 2020|||BUILD:Release\n", s "||a||b\n", s "16||a\n", s "+9||a||b\n", s "\n"],
+    traceLineRe.fullmatch bad = none := by decide +kernel
+
+/-- ★ end to end, string file → chosen trace string: look-ups in the loaded file are look-ups in the normalised list -/
+theorem string_file_to_choice (ss : List TraceString) (hwf : ∀ t ∈ ss, traceStringWf t = true) (h : Nat) :
+    (loadTraceStrings (renderStringFile ss)).map (fun l => getTraceString l h) =
+      some (specChoice (ss.map normaliseTraceString) h) := by
+  rw [string_file_roundtrip ss hwf]
+  simp only [Option.map_some]
+  rw [string_choice]
+
+/-- hash 192602121 is not in the demo file; the string with the same low five digits is chosen -/
+example : (loadTraceStrings (renderStringFile demoStrings)).map (fun l => (getTraceString l 192602121).map (·.hash)) = some (some 92602121) := by
+  decide +kernel
 
 end Pel.C15
